@@ -154,7 +154,7 @@ def run(ctx):
     for c in F.callers_of("take_raw"):
         if c.name() == "take_raw" and c.path.startswith(PARSER):
             tr_callers[c.fn.path].append(c)
-    ctx.floor("callers of take_raw", len(tr_callers), 3)
+    ctx.floor("callers of take_raw", len(tr_callers), 2)
     TEXT_FIELDS = {"leading_trivia", "text", "trailing_trivia"}
 
     def terminal_fields_used(f):
@@ -410,7 +410,7 @@ def _handed_on(ctx, F):
                        "spans is lost from the tree" % (o.line(), cls, "->".join("bb%s" % b for b in path[:18])), f.where(o.line()))
     for k in sorted(k for k in set(ex) - used_ex if not k.startswith("R10.8|")):
         ctx.ob("R10.7", "stale-exception:" + k, False, "exception row matches no dropped path any more (remove it)", "tables/c10_drop_exceptions.tsv")
-    ctx.floor("token-consuming calls returning a green (origins)", n_orig, 550)
+    ctx.floor("token-consuming calls returning a green (origins)", n_orig, 400)
     ctx.floor("green parameters of parser routines", n_param, 35)
     ctx.ob("R10.9", "handed-on-at-most-once", True, "%d of %d consumed greens / green parameters are handed on at most once along every path" % (n_single, n_orig + n_param), "")
     ctx.notes.append("R10.7 analysed %d origins and %d parameters in %d functions of cairo_lang_parser" % (n_orig, n_param, n_fns))
